@@ -90,7 +90,9 @@ DIMS = [
     ("slice_iters", [None, 0, 1, 3]),
     ("slice_pops", [None, 0, 1, 3]),
     ("perf", ["off", "frontier1", "visited1", "dedupe1"]),
-    ("world", ["one", "two"]),
+    # which graphs the caller lists as active, and in which order: "two" lists g before h (ids ascending), "two_rev"
+    # lists h before g, i.e. NOT in the lexicographic order of the graph ids (the store is filled in listing order too)
+    ("world", ["one", "two", "two_rev"]),
     # a relation muted with multiplier exactly 0 (accepted by the validator): nothing spreads along its edges
     ("mult", ["default", "supports0"]),
     # the entry path of the stage: graphs walked one after the other ("off", the default) or handed to the per-graph
@@ -102,6 +104,9 @@ PERF_THOROUGH_EXTRA = ["frontier2", "visited2", "dedupe2"]
 # gate boundary: perf.parallel enabled for T1 with max_workers 1 (documented: no fan-out below 2 workers)
 PAR_THOROUGH_EXTRA = ["workers1"]
 PAR_WORKERS = {"on": 4, "workers1": 1}
+
+
+WORLDS = ("one", "two", "two_rev")
 
 
 def dims_for(thorough: bool):
@@ -498,6 +503,10 @@ def world_graphs(edges, world, nodes=None):
     gs = [("g", nodes or NODES, list(edges))]
     if world == "two":
         gs.append(("h", H_NODES, H_EDGES))
+    elif world == "two_rev":
+        gs.insert(0, ("h", H_NODES, H_EDGES))
+    elif world != "one":
+        raise HarnessError("unknown world %r" % (world,))
     return gs
 
 
@@ -791,6 +800,15 @@ def judge(sc, dev, P, res, store, before, state):
         per_graph[node_graph[d["id"]]].append(d["id"])
     if bad_shape:
         V.append(("deltas:shape", "unexpected delta entries %s%s" % (deltas, desc)))
+    # "in id order per graph": the report is a sequence of per-graph blocks
+    owners = [node_graph[d["id"]] for d in deltas if isinstance(d, dict) and d.get("id") in node_graph]
+    blocks = [g for i, g in enumerate(owners) if i == 0 or owners[i - 1] != g]
+    if len(set(blocks)) != len(blocks):
+        V.append(("deltas:interleaved", "deltas of different graphs interleaved (graph per delta: %s): %s%s" % (owners, deltas, desc)))
+        blocks = None
+    # block order: only compared with what the sequential walk returns for the same input, and only when it is not the
+    # listing order of active_graphs (see the end of this function)
+    order_suspect = blocks is not None and blocks != [g for g in sc["active"] if g in set(blocks)]
     all_seeds = sc["all_seeds"]
     Lhop = min(P["radius"], P["L"])
     nothing_spreads = (Lhop == 0 or P["Q"] == 0)
@@ -891,6 +909,16 @@ def judge(sc, dev, P, res, store, before, state):
         outcome = outcome * 8 + x
     nontrivial = bool(m["propagations"] or m["radius_cap_hits"] or m["layer_cap_hits"] or m["node_budget_hits"] or
                       (all_seeds and m["pops"] < len(all_seeds)))
+    if order_suspect and dev.get("par", "off") != "off":
+        # differential twin (docs/m9/parallel_helper.md: with max_workers > 1 the aggregate must be identical to the
+        # sequential path): same scene, same configuration with the gate left at its default.  Run last: it resets OBS.
+        ctx2, P2 = make_ctx({k: v for k, v in dev.items() if k != "par"})
+        res2 = execute(sc, ctx2, P2)[0]
+        d2 = getattr(res2, "graph_deltas", None)
+        if isinstance(d2, list) and d2 != deltas:
+            V.append(("deltas:graph-order", "fan-out reports the graphs' deltas in another order than the sequential walk of the same input "
+                      "(active_graphs listed as %s): fan-out %s, sequential %s%s" % (sc["active"], [d.get("id") for d in deltas],
+                                                                                   [d.get("id") for d in d2 if isinstance(d, dict)], desc)))
     return V, outcome, nontrivial
 
 
@@ -1100,9 +1128,14 @@ EDIT_VIAS_NODE_QUICK = ["fresh", "inplace"]
 EDIT_VIAS_NODE_THOROUGH = ["fresh", "inplace", "inplace+copy"]
 
 
+def _graph_g(sc):
+    """the enumerated graph 'g' of a scene, wherever the world lists it"""
+    return next(g for g in sc["graphs"] if g[0] == "g")
+
+
 def edit_alphabet(sc, thorough: bool):
     """JSON-able writes on graph 'g' of the scene; every write is an absolute assignment relative to the ORIGINAL scene"""
-    _gid, nodes, edges = sc["graphs"][0]
+    _gid, nodes, edges = _graph_g(sc)
     ids = sorted(n[0] for n in nodes)
     W = []
     if edges:
@@ -1212,7 +1245,8 @@ def run_edit_history(sc, dev, kind, entries, writes, cold=None):
         cold = {}
     ctx_cold, P = make_ctx(dev)
     ctx_w, _P = make_ctx(dev, cache=kind, cache_entries=entries)
-    others = list(sc["graphs"][1:])
+    gpos = [g[0] for g in sc["graphs"]].index("g")          # the edited graph keeps its place in the listing / store order
+    before_g, after_g = list(sc["graphs"][:gpos]), list(sc["graphs"][gpos + 1:])
     n_calls = [0]
 
     def cold_view(nodes, edges, act):
@@ -1222,7 +1256,7 @@ def run_edit_history(sc, dev, kind, entries, writes, cold=None):
             reset_caches()
             OBS.reset(P["node_budget"])
             try:
-                cold[key] = _t1_view(_call(ctx_cold, build_store([("g", list(nodes), list(edges))] + others), act, text))
+                cold[key] = _t1_view(_call(ctx_cold, build_store(before_g + [("g", list(nodes), list(edges))] + after_g), act, text))
             finally:
                 t1mod._T1_CACHE, t1mod._T1_CACHE_CFG = saved[0], saved[1]
                 if hasattr(t1mod, "_T1_CACHE_KIND"):
@@ -1233,7 +1267,7 @@ def run_edit_history(sc, dev, kind, entries, writes, cold=None):
     where = " on edges=%s text=%r cfg=%s" % ([list(e) for e in sc["edges"]], text, dev)
     if sc.get("nodes") is not None:
         where += " nodes(id,label,tags)=%s" % ([list(n) for n in sc["nodes"]],)
-    nodes, edges = list(sc["graphs"][0][1]), list(sc["graphs"][0][2])
+    nodes, edges = list(_graph_g(sc)[1]), list(_graph_g(sc)[2])
     store = build_store(sc["graphs"])
     V = []
     first = last = None
@@ -1295,7 +1329,7 @@ def _edit_worker(chunk, st: Stats, tier):
     kinds = CACHE_KINDS_THOROUGH if thorough else CACHE_KINDS_QUICK
     for edges, nodes, texts in chunk:
         for text in texts:
-            scenes = {w: make_scene(edges, text, w, nodes) for w in ("one", "two")}
+            scenes = {w: make_scene(edges, text, w, nodes) for w in WORLDS}
             for dev in devs:
                 sc = scenes[dev.get("world", "one")]
                 alpha = edit_alphabet(sc, thorough)
@@ -1320,7 +1354,7 @@ def _fanin_worker(chunk, st: Stats, tier):
     devs = [(dev,) + make_ctx(dev) for dev in enum_devs(tier == "thorough", 2 if tier == "thorough" else 1)]
     for edges in chunk:
         for text in FANIN_TEXTS:
-            scenes = {w: make_scene(edges, text, w, FANIN_NODES) for w in ("one", "two")}
+            scenes = {w: make_scene(edges, text, w, FANIN_NODES) for w in WORLDS}
             for dev, ctx, P in devs:
                 sc = scenes[P["world"]]
                 res, store, before, state = execute(sc, ctx, P)
@@ -1380,7 +1414,7 @@ def _keywords_worker(chunk, st: Stats, tier):
         for edges in graphs:
             stores = {}
             for text in KW_TEXTS:
-                scenes = {w: make_scene(edges, text, w, nodes) for w in ("one", "two")}
+                scenes = {w: make_scene(edges, text, w, nodes) for w in WORLDS}
                 for dev, ctx, P in devs:
                     world = P["world"]
                     sc = scenes[world]
@@ -1408,7 +1442,7 @@ def _arms_worker(chunk, st: Stats, tier):
     devs = [(dev,) + make_ctx(dev) for dev in enum_devs(tier == "thorough", 2 if tier == "thorough" else 1)]
     for edges in chunk:
         for text in ARM_TEXTS:
-            scenes = {w: make_scene(edges, text, w, ARM_NODES) for w in ("one", "two")}
+            scenes = {w: make_scene(edges, text, w, ARM_NODES) for w in WORLDS}
             for dev, ctx, P in devs:
                 sc = scenes[P["world"]]
                 res, store, before, state = execute(sc, ctx, P)
@@ -1456,7 +1490,7 @@ def _worker(chunk, st: Stats, tier, fanout=False):
             kdev = fanout_k(tier, edges)
         stores = {}
         for text in TEXTS:
-            scenes = {w: make_scene(edges, text, w) for w in ("one", "two")}
+            scenes = {w: make_scene(edges, text, w) for w in WORLDS}
             for dev, ctx, P in devs[kdev]:
                 world = P["world"]
                 sc = scenes[world]
@@ -1548,6 +1582,9 @@ def run(run: Run) -> None:
     run.notes["edit_history_writes_per_scene"] = "<= %d" % max(
         len(edit_alphabet(make_scene(g, t[0], "one", n), run.thorough)) for g, n, t in edit_items)
     run.pmap(_edit_worker, edit_items, extra=(tier,), procs=NCPU)
+    run.rule += ("; the dimension 'world' is the caller's list of active graphs: g alone, g then h (ids ascending), or h then g (listing order "
+                 "that is not the sorted order of the graph ids; the store is filled in the same order); deltas must form one block per graph, and a "
+                 "fan-out result whose blocks do not follow the listing order is compared with the sequential walk of the same input (identical delta list required)")
     run.rule += ("; the dimension 'par' is the entry path: graphs walked one after the other (default) or handed to the per-graph fan-out "
                  "behind the perf.parallel gate (enabled + t1 + max_workers 4" + ("; thorough also max_workers 1, where the gate stays closed" if run.thorough else "")
                  + "); plus fan-out leg: gate set AND two active graphs, every <=2-edge graph of the main leg x 5 texts x every config with <=1 "
